@@ -133,7 +133,7 @@ P['C12']={
  "functions":["oidc.NewRedisStore"]+[RS+m for m in METHS],
  "sweep":["oidc.init"],
  "lemmas":["L-onlysid-ext"],
- "required":[RS+"GetTokenResponse:refine:SessionStore.GetTokenResponse.got", RS+"GetAuthorizationState:refine:SessionStore.GetAuthorizationState.got", RS+"SetTokenResponse:refine:SessionStore.SetTokenResponse.ok", RS+"SetAuthorizationState:refine:SessionStore.SetAuthorizationState.ok", RS+"RemoveSession:refine:SessionStore.RemoveSession.ok", RS+"ClearAuthorizationState:refine:SessionStore.ClearAuthorizationState.ok", RS+"SetTokenResponse:refine:repinv.dbwf", RS+"SetTokenResponse:refine:SessionStore.SetTokenResponse.frame_pw", "oidc.init:post:pkginv.rediskeys", "oidc.NewRedisStore:post:fields", RS+"SetTokenResponse:post:faults_reported", RS+"GetTokenResponse:post:faults_reported",
+ "required":[RS+"GetTokenResponse:refine:SessionStore.GetTokenResponse.got", RS+"GetAuthorizationState:refine:SessionStore.GetAuthorizationState.got", RS+"SetTokenResponse:refine:SessionStore.SetTokenResponse.ok", RS+"SetAuthorizationState:refine:SessionStore.SetAuthorizationState.ok", RS+"RemoveSession:refine:SessionStore.RemoveSession.ok", RS+"ClearAuthorizationState:refine:SessionStore.ClearAuthorizationState.ok", RS+"SetTokenResponse:refine:repinv.dbwf", RS+"SetTokenResponse:refine:SessionStore.SetTokenResponse.frame_pw", "oidc.init:post:pkginv.rediskeys", "oidc.NewRedisStore:post:fields", RS+"SetTokenResponse:post:faults_reported", RS+"GetTokenResponse:post:faults_reported", RS+"SetTokenResponse:post:only_this_key", RS+"RemoveSession:post:only_this_key",
  MS+"GetTokenResponse:refine:SessionStore.GetTokenResponse.got", MS+"SetTokenResponse:refine:SessionStore.SetTokenResponse.ok", MS+"RemoveSession:refine:SessionStore.RemoveSession.ok", MS+"ClearAuthorizationState:refine:SessionStore.ClearAuthorizationState.ok", MS+"SetTokenResponse:refine:repinv.distinct", MS+"GetTokenResponse:pre@call:sync.Mutex.Lock.not_held"],
  "note":"both stores: every method refines the abstract-map contract of SessionStore under the abstraction MemView, keeps the representation invariants, and acquires / releases the store mutex exactly once around its accesses"}
 P['C10']={
@@ -161,7 +161,7 @@ P['C06']={
  "note":"decided as a functional provenance contract: every session id / state / nonce is shown to be a fixed function (alphabet character selected by byte i modulo 62) of the bytes of ONE crypto/rand.Read made in that call, and of nothing else (not the time, not request data, not other identifiers); the only generator server.Check hands to the handler is the randomGenerator. The statistical quality of the draw (modulo bias 256 mod 62) is not decided"}
 T="internal.tlsConfigPool."
 P['C20']={
- "functions":[T+"LoadTLSConfig",T+"updateCA","internal.BoolStrValue","internal.encodeConfig","internal.tlsConfigEncoder.hash","http.NewHTTPClient"],
+ "functions":[T+"LoadTLSConfig",T+"updateCA","internal.BoolStrValue","internal.encodeConfig","internal.tlsConfigEncoder.hash","internal.tlsConfigEncoder.JSON","http.NewHTTPClient"],
  "refines":[T+"LoadTLSConfig"],
  "lemmas":["L-hashbuf-injective"],
  "required":[T+"LoadTLSConfig:post:trust",T+"LoadTLSConfig:post:shared",T+"LoadTLSConfig:post:pool",T+"LoadTLSConfig:post:none",T+"updateCA:post:updated",T+"updateCA:post:only_id","internal.tlsConfigEncoder.hash:post:id","internal.encodeConfig:post:enc","internal.BoolStrValue:post:val","lemma.L-hashbuf-injective:lemma:L-hashbuf-injective", T+"LoadTLSConfig:refine:TLSConfigPool.LoadTLSConfig.trust", T+"LoadTLSConfig:refine:repinv.src", "http.NewHTTPClient:post:tls_trust", "http.NewHTTPClient:post:tls_none"],
